@@ -4,6 +4,7 @@ CONSTANTS
   Vals = {0, 1}
   IsBlob = FALSE
   SetterMarksDirty = FALSE
+  ExplicitSha1Recomputes = TRUE
   ChunkedResetsSha = TRUE
 INVARIANT IdIsHash
 INVARIANT SerCurrent
